@@ -158,7 +158,7 @@ GEOMS = {
 }
 
 
-def execute(c, tag=''):
+def execute(c, tag='', int_data=False):
     """run the real Frame.__init__ + add_signal for configuration c.
     -> list of leaves; each leaf value is a dict of terms"""
     if c.geom is None:
@@ -168,6 +168,11 @@ def execute(c, tag=''):
         df, dt, fch1, pre = Sym(core.RV(g['df'])), Sym(core.RV(g['dt'])), Sym(core.RV(g['fch1'])), []
     inp, kw = build_inputs(c, tag)
     D = sym_data(c.T, c.Fc, f'D{tag}')
+    if int_data:
+        # prior data of an integer element type (frames built from integer arrays)
+        for idx in np.ndindex(D.shape):
+            D[idx] = Sym(z3.ToReal(z3.Int(f'Dint{tag}_{idx[0]}_{idx[1]}')), True)
+        D._int_only = True
 
     def run():
         fr = make_frame(c.T, c.Fc, c.asc, df, dt, fch1)
@@ -181,7 +186,12 @@ def execute(c, tag=''):
         # that a write into the caller's signal description (which would change the next injection) is seen
         kw_run = {k: (v.copy() if isinstance(v, np.ndarray) else v) for k, v in kw.items()}
         in_before = {k: list(v.flat) for k, v in kw_run.items() if isinstance(v, np.ndarray)}
-        sig = fr.add_signal(**kw_run)
+        try:
+            sig = fr.add_signal(**kw_run)
+        except TypeError as e:
+            if not int_data:
+                raise
+            return dict(fr=fr, sig=None, refused=repr(e), before=before)      # NumPy refuses float += into integer data
         in_after = {k: list(kw_run[k].flat) for k in in_before}
         return dict(fr=fr, sig=sig, before=before, in_before=in_before, in_after=in_after)
 
